@@ -99,7 +99,7 @@ def check_output(text, opts, ctx, who, dname, ndocs=None, events=None):
         if opts.get('version'):
             if not all(p.version and tuple(p.version) == tuple(opts['version']) for p in ds):
                 bad.append(('version %r requested but a document lacks the %%YAML directive' % (opts['version'],), None))
-            if len(re.findall(r'(?:^|[\r\n])%YAML ', text)) != len(ds):
+            if len(re.findall('(?:^|[\r\n' + chr(0x85) + chr(0x2028) + chr(0x2029) + '])%YAML ', text)) != len(ds):
                 bad.append(('number of %YAML lines differs from the number of documents', None))
         elif any(p.version for p in ds):
             bad.append(('no version requested but a %YAML directive was written', None))
